@@ -1,6 +1,6 @@
 """C17 — CSS never breaks rendering (first clause only; syntax-insignificance is not decided)."""
 from ..facts import AnchorMissing, callee_def, op_place, op_const, is_bare
-from ..util import (ends, site, fn_key, callee_method, require, has_call, has_field, origin, final_uses, direct_place)
+from ..util import (ends, site, fn_key, callee_method, require, has_call, has_field, origin, final_uses, direct_place, transitive_closures)
 from . import C01
 
 EXPLANATION = (
@@ -53,9 +53,11 @@ def rule_e(ctx):
     for fn, callee in (("css::dom_extract::dom_to_stylesheet", "add_author_css"),
                        ("css::StyleData::computed_style", "parse_style_attribute"),
                        ("css::StyleData::computed_style", "parse_color_attribute")):
-        b = F.one(fn)
-        cs = b.calls(lambda cd, t: callee_method(t) == callee or ends(cd, callee))
-        for bb, t in cs:
+        b0 = F.one(fn)
+        # (the call may sit in a closure of the function: `sheets.iter().for_each(|css| ..)`)
+        cs = [(b2, bb, t) for b2 in [b0] + [c2 for _x, c2 in transitive_closures(F, b0)]
+              for bb, t in b2.calls(lambda cd, t: callee_method(t) == callee or ends(cd, callee))]
+        for b, bb, t in cs:
             n += 1
             if not is_bare(t["dest"]):
                 ctx.violation("C17-E", "%s→%s:result" % (fn.split("::")[-1], callee), t["span"], b.id, "result stored in a place")
@@ -85,7 +87,8 @@ def rule_e(ctx):
     ctx.check(okc, "C17-E", "do_add_css:map_err(CssParseError)", da.span, da.id, "")
     # add_author_css only from the document extraction, result dropped there
     aa = F.one("css::StyleData::add_author_css")
-    ctx.check(F.callers_of(aa.id) == ["css::dom_extract::dom_to_stylesheet"], "C17-E", "add_author_css:callers", aa.span, aa.id,
+    roots = sorted({(F.bodies[c].root if F.bodies[c].kind == "Closure" else c) for c in F.callers_of(aa.id)})
+    ctx.check(roots == ["css::dom_extract::dom_to_stylesheet"], "C17-E", "add_author_css:callers", aa.span, aa.id,
               str(F.callers_of(aa.id)))
 
 
